@@ -15,6 +15,11 @@ package types
 //@ spec wfp(wp *Project) bool = forall wk string :: !(has(wp.Services, wk) && has(wp.DisabledServices, wk))
 // svcFresh: no reference held by a service value existed before this call (C14: no aliasing with the receiver)
 //@ spec mapsFresh(fs ServiceConfig) bool = (fs.DependsOn == nil || fresh(fs.DependsOn)) && (fs.Environment == nil || fresh(fs.Environment)) && (fs.Labels == nil || fresh(fs.Labels)) && (fs.Networks == nil || fresh(fs.Networks)) && (fs.Build == nil || fresh(fs.Build)) && (fs.Deploy == nil || fresh(fs.Deploy)) && (fs.Profiles == nil || fresh(fs.Profiles)) && (fs.Command == nil || fresh(fs.Command)) && (fs.Volumes == nil || fresh(fs.Volumes)) && (fs.Secrets == nil || fresh(fs.Secrets)) && (fs.Configs == nil || fresh(fs.Configs)) && (fs.Ports == nil || fresh(fs.Ports)) && (fs.Extensions == nil || fresh(fs.Extensions)) && (fs.EnvFiles == nil || fresh(fs.EnvFiles)) && (fs.Annotations == nil || fresh(fs.Annotations)) && (fs.HealthCheck == nil || fresh(fs.HealthCheck))
+// resource values: no label / option / extension map held by the value existed before this call (C14)
+//@ spec netFresh(fn NetworkConfig) bool = (fn.Labels == nil || fresh(fn.Labels)) && (fn.CustomLabels == nil || fresh(fn.CustomLabels)) && (fn.DriverOpts == nil || fresh(fn.DriverOpts)) && (fn.Extensions == nil || fresh(fn.Extensions))
+//@ spec volFresh(fv VolumeConfig) bool = (fv.Labels == nil || fresh(fv.Labels)) && (fv.CustomLabels == nil || fresh(fv.CustomLabels)) && (fv.DriverOpts == nil || fresh(fv.DriverOpts)) && (fv.Extensions == nil || fresh(fv.Extensions))
+//@ spec secFresh(fx SecretConfig) bool = (fx.Labels == nil || fresh(fx.Labels)) && (fx.DriverOpts == nil || fresh(fx.DriverOpts)) && (fx.Extensions == nil || fresh(fx.Extensions))
+//@ spec cfgFresh(fc ConfigObjConfig) bool = (fc.Labels == nil || fresh(fc.Labels)) && (fc.DriverOpts == nil || fresh(fc.DriverOpts)) && (fc.Extensions == nil || fresh(fc.Extensions))
 
 // ---------- copies ----------
 
@@ -30,6 +35,10 @@ package types
 //@?   ensures[C14] p != nil ==> forall k string :: has(p.Services, k) ==> result.Services[k].Name == p.Services[k].Name && len(result.Services[k].Profiles) == len(p.Services[k].Profiles) && (forall d string :: has(result.Services[k].DependsOn, d) <==> has(p.Services[k].DependsOn, d))   // undischarged on the reference tree: not claimed
 //@?   ensures[C14] p != nil ==> forall k string :: has(p.DisabledServices, k) ==> result.DisabledServices[k].Name == p.DisabledServices[k].Name && len(result.DisabledServices[k].Profiles) == len(p.DisabledServices[k].Profiles) && (forall d string :: has(result.DisabledServices[k].DependsOn, d) <==> has(p.DisabledServices[k].DependsOn, d))   // undischarged on the reference tree: not claimed
 //@   ensures[C14] p != nil ==> forall k string :: has(result.Services, k) ==> mapsFresh(result.Services[k])
+//@   ensures[C14] p != nil ==> forall k string :: has(result.Networks, k) ==> netFresh(result.Networks[k])
+//@   ensures[C14] p != nil ==> forall k string :: has(result.Volumes, k) ==> volFresh(result.Volumes[k])
+//@   ensures[C14] p != nil ==> forall k string :: has(result.Secrets, k) ==> secFresh(result.Secrets[k])
+//@   ensures[C14] p != nil ==> forall k string :: has(result.Configs, k) ==> cfgFresh(result.Configs[k])
 //@   ensures[C14] p != nil ==> forall k string :: has(result.DisabledServices, k) ==> mapsFresh(result.DisabledServices[k])
 //@?   ensures[C14,C20] p != nil ==> forall k string :: has(p.Secrets, k) ==> copyOf_SecretConfig(result.Secrets[k], p.Secrets[k])   // undischarged on the reference tree: not claimed
 
@@ -268,10 +277,10 @@ package types
 //@   ensures[C14] fresh(result.Networks) && fresh(result.Volumes) && fresh(result.Secrets) && fresh(result.Configs)
 //@   ensures[C14] forall k string :: has(result.Services, k) ==> mapsFresh(result.Services[k])
 // C14 / F10: the kept resources must not share their label/option maps with the receiver's
-//@?   ensures[C14] forall k string :: has(result.Networks, k) ==> (result.Networks[k].Labels == nil || fresh(result.Networks[k].Labels)) && (result.Networks[k].DriverOpts == nil || fresh(result.Networks[k].DriverOpts))   // undischarged on the reference tree: not claimed
-//@?   ensures[C14] forall k string :: has(result.Volumes, k) ==> (result.Volumes[k].Labels == nil || fresh(result.Volumes[k].Labels)) && (result.Volumes[k].DriverOpts == nil || fresh(result.Volumes[k].DriverOpts))   // undischarged on the reference tree: not claimed
-//@?   ensures[C14] forall k string :: has(result.Secrets, k) ==> (result.Secrets[k].Labels == nil || fresh(result.Secrets[k].Labels)) && (result.Secrets[k].DriverOpts == nil || fresh(result.Secrets[k].DriverOpts))   // undischarged on the reference tree: not claimed
-//@?   ensures[C14] forall k string :: has(result.Configs, k) ==> (result.Configs[k].Labels == nil || fresh(result.Configs[k].Labels)) && (result.Configs[k].DriverOpts == nil || fresh(result.Configs[k].DriverOpts))   // undischarged on the reference tree: not claimed
+//@   ensures[C14] forall k string :: has(result.Networks, k) ==> netFresh(result.Networks[k])
+//@   ensures[C14] forall k string :: has(result.Volumes, k) ==> volFresh(result.Volumes[k])
+//@   ensures[C14] forall k string :: has(result.Secrets, k) ==> secFresh(result.Secrets[k])
+//@   ensures[C14] forall k string :: has(result.Configs, k) ==> cfgFresh(result.Configs[k])
 // C15: only resources of the receiver are kept
 //@?   ensures[C15] forall k string :: has(result.Networks, k) ==> has(p.Networks, k)   // undischarged on the reference tree: not claimed
 //@?   ensures[C15] forall k string :: has(result.Volumes, k) ==> has(p.Volumes, k)   // undischarged on the reference tree: not claimed
@@ -280,15 +289,19 @@ package types
 // exactly the referenced ones (ENGINE LIMIT: nested map loops, the outer seen-set cannot be named in inner invariants)
 //@?  ensures[C15] forall k string :: has(result.Networks, k) <==> has(p.Networks, k) && exists n string :: has(result.Services, n) && has(result.Services[n].Networks, k)
 //@   loop 7
+//@     invariant forall k string :: has(networks, k) ==> netFresh(networks[k])
 //@     invariant networks != nil && fresh(networks) && newProject != nil && fresh(newProject)
 //@?     invariant forall k string :: has(networks, k) ==> has(p.Networks, k) && networks[k] == p.Networks[k]   // undischarged on the reference tree: not claimed
 //@   loop 8
+//@     invariant forall k string :: has(volumes, k) ==> volFresh(volumes[k])
 //@     invariant volumes != nil && fresh(volumes) && networks != nil && fresh(networks) && newProject != nil && fresh(newProject)
 //@?     invariant forall k string :: has(volumes, k) ==> has(p.Volumes, k) && volumes[k] == p.Volumes[k]   // undischarged on the reference tree: not claimed
 //@   loop 9
+//@     invariant forall k string :: has(secrets, k) ==> secFresh(secrets[k])
 //@     invariant secrets != nil && fresh(secrets) && volumes != nil && fresh(volumes) && networks != nil && fresh(networks) && newProject != nil && fresh(newProject)
 //@?     invariant forall k string :: has(secrets, k) ==> has(p.Secrets, k) && secrets[k] == p.Secrets[k]   // undischarged on the reference tree: not claimed
 //@   loop 10
+//@     invariant forall k string :: has(configs, k) ==> cfgFresh(configs[k])
 //@     invariant configs != nil && fresh(configs) && secrets != nil && fresh(secrets) && volumes != nil && fresh(volumes) && networks != nil && fresh(networks) && newProject != nil && fresh(newProject)
 //@?     invariant forall k string :: has(configs, k) ==> has(p.Configs, k) && configs[k] == p.Configs[k]   // undischarged on the reference tree: not claimed
 
@@ -682,6 +695,10 @@ package types
 //@   ensures[C14] (forall kk string :: has(dst.Services, kk) <==> has(src.Services, kk))
 //@?   ensures[C14] (forall ee string :: has(src.Services, ee) ==> copyOf_ServiceConfig(dst.Services[ee], src.Services[ee]))   // undischarged on the reference tree: not claimed
 //@   ensures[C14] forall ee string :: has(dst.Services, ee) ==> mapsFresh(dst.Services[ee])
+//@   ensures[C14] forall ee string :: has(dst.Networks, ee) ==> netFresh(dst.Networks[ee])
+//@   ensures[C14] forall ee string :: has(dst.Volumes, ee) ==> volFresh(dst.Volumes[ee])
+//@   ensures[C14] forall ee string :: has(dst.Secrets, ee) ==> secFresh(dst.Secrets[ee])
+//@   ensures[C14] forall ee string :: has(dst.Configs, ee) ==> cfgFresh(dst.Configs[ee])
 //@   ensures[C14] (dst.Networks == nil <==> src.Networks == nil) && (src.Networks != nil ==> fresh(dst.Networks))
 //@   ensures[C14] (forall kk string :: has(dst.Networks, kk) <==> has(src.Networks, kk))
 //@?   ensures[C14] (forall ee string :: has(src.Networks, ee) ==> copyOf_NetworkConfig(dst.Networks[ee], src.Networks[ee]))   // undischarged on the reference tree: not claimed
@@ -882,7 +899,9 @@ package types
 //@   ensures[C14] forall k string :: has(src, k) ==> has(dst, k)
 //@   ensures[C14] forall k string :: !has(src, k) ==> (has(dst, k) <==> old(has(dst, k)))
 //@?   ensures[C14] forall k string :: has(src, k) ==> copyOf_NetworkConfig(dst[k], src[k])   // undischarged on the reference tree: not claimed
+//@   ensures[C14] forall k string :: has(src, k) ==> netFresh(dst[k])
 //@   loop 1
+//@     invariant forall k string :: seen(k) ==> netFresh(dst[k])
 //@     invariant frame()
 //@     invariant forall k string :: seen(k) ==> has(src, k) && has(dst, k)
 //@     invariant forall k string :: !seen(k) ==> (has(dst, k) <==> old(has(dst, k)))
@@ -893,6 +912,7 @@ package types
 //@   requires dst != nil
 //@   assigns dst.*
 //@   ensures[C14] has(dst, src_key)
+//@   ensures[C14] netFresh(dst[src_key])
 //@   ensures[C14] forall k string :: k != src_key ==> (has(dst, k) <==> old(has(dst, k))) && dst[k] == old(dst[k])
 //@   ensures[C14] dst[src_key].Name == src_value.Name
 //@   ensures[C14] dst[src_key].Driver == src_value.Driver
@@ -925,7 +945,9 @@ package types
 //@   ensures[C14] forall k string :: has(src, k) ==> has(dst, k)
 //@   ensures[C14] forall k string :: !has(src, k) ==> (has(dst, k) <==> old(has(dst, k)))
 //@?   ensures[C14] forall k string :: has(src, k) ==> copyOf_VolumeConfig(dst[k], src[k])   // undischarged on the reference tree: not claimed
+//@   ensures[C14] forall k string :: has(src, k) ==> volFresh(dst[k])
 //@   loop 1
+//@     invariant forall k string :: seen(k) ==> volFresh(dst[k])
 //@     invariant frame()
 //@     invariant forall k string :: seen(k) ==> has(src, k) && has(dst, k)
 //@     invariant forall k string :: !seen(k) ==> (has(dst, k) <==> old(has(dst, k)))
@@ -936,6 +958,7 @@ package types
 //@   requires dst != nil
 //@   assigns dst.*
 //@   ensures[C14] has(dst, src_key)
+//@   ensures[C14] volFresh(dst[src_key])
 //@   ensures[C14] forall k string :: k != src_key ==> (has(dst, k) <==> old(has(dst, k))) && dst[k] == old(dst[k])
 //@   ensures[C14] dst[src_key].Name == src_value.Name
 //@   ensures[C14] dst[src_key].Driver == src_value.Driver
@@ -1187,7 +1210,9 @@ package types
 //@   ensures[C14] forall k string :: has(src, k) ==> has(dst, k)
 //@   ensures[C14] forall k string :: !has(src, k) ==> (has(dst, k) <==> old(has(dst, k)))
 //@?   ensures[C14] forall k string :: has(src, k) ==> copyOf_SecretConfig(dst[k], src[k])   // undischarged on the reference tree: not claimed
+//@   ensures[C14] forall k string :: has(src, k) ==> secFresh(dst[k])
 //@   loop 1
+//@     invariant forall k string :: seen(k) ==> secFresh(dst[k])
 //@     invariant frame()
 //@     invariant forall k string :: seen(k) ==> has(src, k) && has(dst, k)
 //@     invariant forall k string :: !seen(k) ==> (has(dst, k) <==> old(has(dst, k)))
@@ -1198,6 +1223,7 @@ package types
 //@   requires dst != nil
 //@   assigns dst.*
 //@   ensures[C14] has(dst, src_key)
+//@   ensures[C14] secFresh(dst[src_key])
 //@   ensures[C14] forall k string :: k != src_key ==> (has(dst, k) <==> old(has(dst, k))) && dst[k] == old(dst[k])
 //@   ensures[C14] dst[src_key].Name == src_value.Name
 //@   ensures[C14] dst[src_key].File == src_value.File
@@ -1476,7 +1502,9 @@ package types
 //@   ensures[C14] forall k string :: has(src, k) ==> has(dst, k)
 //@   ensures[C14] forall k string :: !has(src, k) ==> (has(dst, k) <==> old(has(dst, k)))
 //@?   ensures[C14] forall k string :: has(src, k) ==> copyOf_ConfigObjConfig(dst[k], src[k])   // undischarged on the reference tree: not claimed
+//@   ensures[C14] forall k string :: has(src, k) ==> cfgFresh(dst[k])
 //@   loop 1
+//@     invariant forall k string :: seen(k) ==> cfgFresh(dst[k])
 //@     invariant frame()
 //@     invariant forall k string :: seen(k) ==> has(src, k) && has(dst, k)
 //@     invariant forall k string :: !seen(k) ==> (has(dst, k) <==> old(has(dst, k)))
@@ -1487,6 +1515,7 @@ package types
 //@   requires dst != nil
 //@   assigns dst.*
 //@   ensures[C14] has(dst, src_key)
+//@   ensures[C14] cfgFresh(dst[src_key])
 //@   ensures[C14] forall k string :: k != src_key ==> (has(dst, k) <==> old(has(dst, k))) && dst[k] == old(dst[k])
 //@   ensures[C14] dst[src_key].Name == src_value.Name
 //@   ensures[C14] dst[src_key].File == src_value.File
